@@ -23,7 +23,7 @@ ASSUMPTIONS = ["mutators are only issued in mode r+ here (read-only enforcement 
                "asraggedarray is not called with an empty iterable (no dtype/atom could be inferred)",
                "bool / NumPy-integer truncate indices are not generated"]
 EXHAUSTIVE = None
-MUST_HIT = (['append-fills-index-type-exactly', 'env:c-locale', 'ops-inside-open-context', 'trunc-removes-only-zero-length', 'trunc0-then-append', 'reopen-between-ops', 'zero-length-subarray', 'rejected-call',
+MUST_HIT = (['iterappend:manyitems', 'iterappend:from-self', 'iterappend:gen-sets-mode', 'iterappend:readcode-inside', 'append-fills-index-type-exactly', 'env:c-locale', 'ops-inside-open-context', 'trunc-removes-only-zero-length', 'trunc0-then-append', 'reopen-between-ops', 'zero-length-subarray', 'rejected-call',
              'how:create', 'how:as', 'iter_arrays:ok', 'iter_arrays:raises', 'iter_arrays:step!=1', 'nonnative',
              'atomrank:0', 'atomrank:1', 'atomrank:2'] + [f'indextype:{t}' for t in rhist.INDEXTYPES])
 
@@ -72,7 +72,21 @@ def fixed_specs():
                                             {'o': 'append', 'item': {'n': 0, 'seed': 6, 'form': 'nd'}}]}
 
 
+def long_specs():
+    """More than 4096 (and 127 / 255) subarrays in one array: every k at the marks, iter_arrays with steps that do not divide 4096."""
+    start = {'how': 'as', 'dt': {'t': 'uint8', 'bo': '<'}, 'atom': [], 'indextype': 'int32', 'meta': None, 'mode': 'r+', 'dtarg': True, 'gen': False,
+             'items': [{'n': 1, 'seed': 1, 'form': 'nd'}]}
+    reads = {'o': 'read', 'triples': [[0, None, 3], [1, None, 5], [0, None, 7], [4090, 4110, 1], [0, None, 4096], [5, 5000, 1000], [4100, 0, -3]]}
+    yield {'start': start, 'ops': [{'o': 'iterappend-x', 'style': 'manyitems', 'n': 5000, 'seed': 2}, reads, {'o': 'trunc', 'i': 4097, 'by': 'obj'}, reads,
+                                    {'o': 'iterappend-x', 'style': 'from-self', 'n': 0, 'seed': 3}]}
+    for n_ in (130, 300):
+        yield {'start': dict(start, indextype='int64', atom=[2]), 'lazy': True,
+               'ops': [{'o': 'iterappend-x', 'style': 'manyitems', 'n': n_, 'seed': 4}, {'o': 'read', 'triples': [[-1, None, 1], [0, None, 3]], 'lo': True},
+                       {'o': 'iterappend-x', 'style': 'gen-sets-mode', 'n': 0, 'seed': 5}, {'o': 'iterappend-x', 'style': 'readcode-inside', 'n': 0, 'seed': 6}]}
+
+
 def task_fixed(ctx, col):
+    enum_search(ctx, col, long_specs(), lambda s: execute(ctx, s))
     enum_search(ctx, col, fixed_specs(), lambda s: execute(ctx, s))
     # a sample of histories in a child interpreter whose default text encoding is ASCII (README and JSON files are written there too)
     from vlib import envrun
